@@ -94,6 +94,9 @@ void __cxa_rethrow(void)
   __exc = 1; __exc_obj = __caught_obj[__caught_n - 1]; __exc_type = __caught_type[__caught_n - 1];
 }
 
+/* libc character functions whose address is taken (std::transform(.., ::toupper)) */
+int tolower(int); int toupper(int);
+
 /* ---- operator new / delete: never fail (DESIGN 2.2 item 5) ---- */
 #ifndef G2C_NEW_HOOK
 #define G2C_NEW_HOOK(n)
